@@ -89,6 +89,43 @@ pub fn gen_inputs(e: &BEntry, idx: usize, n_boundary: usize, n_random: usize, ma
         let bytes: Vec<u8> = (0..e.nbytes).map(|t| [0u8, 255, 1, 128, 127][(idx + j + t) % 5]).collect();
         out.push(BIn { big, bits, bytes });
     }
+    // operand pairs that are equal modulo 2^(96 i) but differ above: they agree on the low limbs and
+    // (for mixed widths) have different numbers of limbs. The wider operand gets the high part; for
+    // equal widths both orders are used.
+    if e.widths.len() >= 2 && n_boundary > 0 {
+        let (w0, w1) = (e.widths[0] as usize, e.widths[1] as usize);
+        let (wmax, wmin) = (w0.max(w1), w0.min(w1));
+        let mask = |n: usize| (BigUint::one() << n) - BigUint::one();
+        let mut pairs: Vec<(BigUint, BigUint)> = vec![];
+        for i in 1..=3usize {
+            let sh = 96 * i;
+            if wmax <= sh {
+                break;
+            }
+            let lowbits = wmin.min(sh);
+            for low in [BigUint::from(5u8) & mask(lowbits), mask(lowbits)] {
+                let high = if wmax - sh >= 3 { BigUint::from(7u8) } else { BigUint::one() };
+                let wide = &low + (high << sh);
+                if w0 >= w1 {
+                    pairs.push((wide.clone(), low.clone()));
+                }
+                if w1 >= w0 {
+                    pairs.push((low.clone(), wide.clone()));
+                }
+            }
+        }
+        for (pi, (x, y)) in pairs.into_iter().take(max_specials.max(2)).enumerate() {
+            let mut big = vec![x, y];
+            for w in e.widths.iter().skip(2) {
+                big.push(big_classes(*w)[pi % 3].clone());
+            }
+            out.push(BIn {
+                big,
+                bits: (0..e.nbits).map(|t| (pi + t) % 2 == 0).collect(),
+                bytes: vec![7; e.nbytes],
+            });
+        }
+    }
     if (e.nbits > 1 || e.nbytes > 1) && n_boundary > 0 {
         out.push(BIn {
             big: e.widths.iter().map(|_| BigUint::zero()).collect(),
@@ -252,22 +289,60 @@ pub fn big_catalogue(thorough: bool) -> Vec<BEntry> {
             v.push(e);
         }
     }
-    // mixed widths
-    for &(w1, w2) in &[(8u32, 256u32), (256, 8), (65, 64), (1, 96), (97, 96)] {
+    // mixed widths, in both orders (x narrower than y and y narrower than x), including pairs with
+    // different numbers of 96-bit limbs
+    for &(w1, w2) in &[(8u32, 256u32), (256, 8), (65, 64), (1, 96), (97, 96), (96, 97), (64, 200), (200, 64)] {
+        let limbs_differ = w1.div_ceil(LOG2_BASE) != w2.div_ceil(LOG2_BASE);
+        let qk = matches!((w1, w2), (8, 256) | (256, 8) | (97, 96) | (96, 97));
         let mut p = BB::new();
+        let bit = p.p(BIns::InBit(0));
         let a = p.p(BIns::In(0, w1));
         let c = p.p(BIns::In(1, w2));
         let s = p.p(BIns::Add(a, c));
         p.out(s);
         let lt = p.p(BIns::Lt(a, c));
         p.out(lt);
+        let gt = p.p(BIns::Lt(c, a));
+        p.out(gt);
         let eq = p.p(BIns::IsEq(a, c));
         p.out(eq);
+        let eq2 = p.p(BIns::IsEq(c, a));
+        p.out(eq2);
+        let ne = p.p(BIns::IsNeq(a, c));
+        p.out(ne);
         let pr = p.p(BIns::Mul(a, c));
         p.out(pr);
-        let mut e = entry(&format!("mixed[{w1},{w2}]: add, lower_than, is_equal, mul"), p, vec![w1, w2], w1 == 65);
-        e.specials = vec![big2(&one, &one), big2(&BigUint::zero(), &BigUint::zero())];
+        let sel = p.p(BIns::Select(bit, a, c));
+        p.out(sel);
+        let e3 = p.p(BIns::IsEq(sel, c));
+        p.out(e3);
+        let e4 = p.p(BIns::IsEq(a, sel));
+        p.out(e4);
+        let l2 = p.p(BIns::Lt(sel, s));
+        p.out(l2);
+        let mut e = entry(&format!("mixed[{w1},{w2}]: add, lower_than, is_equal, is_not_equal, mul, select"), p, vec![w1, w2], qk || w1 == 65);
+        e.nbits = 1;
+        e.specials = vec![
+            BIn { big: vec![one.clone(), one.clone()], bits: vec![true], bytes: vec![] },
+            BIn { big: vec![BigUint::zero(), BigUint::zero()], bits: vec![false], bytes: vec![] },
+        ];
         v.push(e);
+        for (name, mk) in [
+            ("assert_equal", BIns::AssertEq as fn(R, R) -> BIns),
+            ("assert_not_equal", BIns::AssertNeq as fn(R, R) -> BIns),
+        ] {
+            if !limbs_differ {
+                continue;
+            }
+            let mut p = BB::new();
+            let a = p.p(BIns::In(0, w1));
+            let c = p.p(BIns::In(1, w2));
+            p.p(mk(a, c));
+            p.out(a);
+            let mut e = entry(&format!("mixed[{w1},{w2}]: {name}"), p, vec![w1, w2], qk);
+            e.specials = vec![big2(&one, &one), big2(&BigUint::zero(), &BigUint::zero()), big2(&one, &BigUint::zero())];
+            v.push(e);
+        }
         let mut p = BB::new();
         let a = p.p(BIns::In(0, w1));
         let c = p.p(BIns::In(1, w2));
@@ -284,6 +359,28 @@ pub fn big_catalogue(thorough: bool) -> Vec<BEntry> {
         p.out(qr + 1);
         let mut e = entry(&format!("mixed[{w1},{w2}]: div_rem"), p, vec![w1, w2], false);
         e.specials = vec![big2(&one, &one), big2(&one, &BigUint::zero())];
+        v.push(e);
+    }
+    // a fixed value with MORE limbs than the operand it is compared with
+    for (tag, c) in [("5+7*2^96", b(5) + (b(7) << 96usize)), ("2^200+5", (&one << 200usize) + b(5))] {
+        let mut p = BB::new();
+        let a = p.p(BIns::In(0, 64));
+        let f = p.p(BIns::Fix(c.clone()));
+        let e1 = p.p(BIns::IsEq(a, f));
+        p.out(e1);
+        let e2 = p.p(BIns::IsEq(f, a));
+        p.out(e2);
+        let e3 = p.p(BIns::IsEqC(a, c.clone()));
+        p.out(e3);
+        let ne = p.p(BIns::IsNeq(a, f));
+        p.out(ne);
+        let lt = p.p(BIns::Lt(a, f));
+        p.out(lt);
+        p.p(BIns::AssertNeq(a, f));
+        let s = p.p(BIns::Add(a, f));
+        p.out(s);
+        let mut e = entry(&format!("fixed-wider[{tag}] vs 64-bit operand: is_equal both orders, is_not_equal, lower_than, assert_not_equal, add"), p, vec![64], tag.starts_with('5'));
+        e.specials = vec![BIn::big(vec![b(5)]), BIn::big(vec![b(6)]), BIn::big(vec![BigUint::zero()])];
         v.push(e);
     }
     // fixed values, select, equality with constants
